@@ -31,7 +31,14 @@ type Model struct {
 	Steps int
 	// CLLevel is the commit level at which Content-Length was declared (-1: never).
 	CLLevel int
+	// Spans: where in the pattern the body bytes come from, in order, adjacent pieces merged. Every
+	// operation but OpRFX writes the pattern bytes that start at the current body offset, so that a
+	// program without a displaced file segment has the one span {0, Body}.
+	Spans []Span
 }
+
+// Span is a piece of the body: N pattern bytes starting at Src.
+type Span struct{ Src, N int }
 
 // NewModel starts the model for a request version.
 func NewModel(version int) *Model {
@@ -46,12 +53,41 @@ func (m *Model) set(k, v string) {
 	}
 }
 
-func (m *Model) data(n int) {
+func (m *Model) data(n int) { m.dataFrom(m.Body, n) }
+
+func (m *Model) dataFrom(src, n int) {
 	if m.Status == 0 {
 		m.Status = 200
 	}
 	m.Level = 3
+	if n > 0 {
+		if k := len(m.Spans); k > 0 && m.Spans[k-1].Src+m.Spans[k-1].N == src {
+			m.Spans[k-1].N += n
+		} else {
+			m.Spans = append(m.Spans, Span{src, n})
+		}
+	}
 	m.Body += n
+}
+
+// Aligned: the body is the first Body bytes of the pattern.
+func (m *Model) Aligned() bool {
+	return len(m.Spans) == 0 || (len(m.Spans) == 1 && m.Spans[0].Src == 0)
+}
+
+var wantScratch []byte
+
+// Want returns the body the client must decode (valid until the next call).
+func (m *Model) Want() []byte {
+	if m.Aligned() {
+		return Pat[:m.Body]
+	}
+	w := wantScratch[:0]
+	for _, s := range m.Spans {
+		w = append(w, Pat[s.Src:s.Src+s.N]...)
+	}
+	wantScratch = w
+	return w
 }
 
 // Apply advances the model by one operation.
@@ -92,6 +128,14 @@ func (m *Model) Apply(op Op) {
 		m.data(op.N)
 	case OpRFB, OpRFF, OpRFL:
 		m.data(op.N)
+	case OpRFX:
+		// a segment without bytes is like an empty Write: an http.ResponseWriter may or may not
+		// commit the status and the headers on it (net/http's ReadFrom does, io.Copy of nothing does not)
+		if c := op.Count(); c > 0 {
+			m.dataFrom(op.Off, c)
+		} else if m.Level == 0 {
+			m.Level = 1
+		}
 	case OpF:
 		m.data(0)
 	}
@@ -148,7 +192,11 @@ func (m *Model) Excluded() string {
 
 // Key is the model's contribution to the BFS state key.
 func (m *Model) Key() string {
-	return fmt.Sprintf("L%d S%d/%d B%d H0%v HZ%v", m.Level, m.Status, m.StatusAlt, m.Body, sortedMap(m.Hdr0), sortedMap(m.HdrZ))
+	k := fmt.Sprintf("L%d S%d/%d B%d H0%v HZ%v", m.Level, m.Status, m.StatusAlt, m.Body, sortedMap(m.Hdr0), sortedMap(m.HdrZ))
+	if !m.Aligned() {
+		k += fmt.Sprint(m.Spans)
+	}
+	return k
 }
 
 func sortedMap(m map[string]string) string {
@@ -192,11 +240,33 @@ type Decoded struct {
 	Leftover int
 	Chunked  bool
 	Patched  bool // HTTP/1.0 status line patched to 1.1 to decode a handler-requested chunked body
+	// NextErr: what is wrong with the bytes that follow the response when the pipelined follow-up
+	// response is expected there ("" = they are exactly that response; Leftover is then 0).
+	NextErr string
 }
 
 // Decode parses the wire bytes with net/http as the response to a GET request.
 func Decode(wire []byte, allowPatch10 bool) (*Decoded, error) {
-	return decodeInto(nil, wire, allowPatch10)
+	return decodeInto(nil, wire, allowPatch10, false)
+}
+
+// decodeNext reads the pipelined follow-up response (what the NextPath handler answers) from br.
+func decodeNext(br *bufio.Reader) string {
+	resp, err := http.ReadResponse(br, &http.Request{Method: "GET"})
+	if err != nil {
+		return "they do not parse as the response to the second request: " + err.Error()
+	}
+	body, berr := io.ReadAll(io.LimitReader(resp.Body, 4096))
+	_ = resp.Body.Close()
+	switch {
+	case berr != nil:
+		return "the body of the second response does not decode: " + berr.Error()
+	case resp.StatusCode != 200 || resp.Header.Get(NextHeader) != "1":
+		return fmt.Sprintf("they parse as a response with status %d that is not the second handler's", resp.StatusCode)
+	case string(body) != NextBody:
+		return fmt.Sprintf("the second response's body is %q, its handler wrote %q", body, NextBody)
+	}
+	return ""
 }
 
 func readAllInto(buf []byte, r io.Reader) ([]byte, error) {
@@ -215,7 +285,7 @@ func readAllInto(buf []byte, r io.Reader) ([]byte, error) {
 	}
 }
 
-func decodeInto(scratch *[]byte, wire []byte, allowPatch10 bool) (*Decoded, error) {
+func decodeInto(scratch *[]byte, wire []byte, allowPatch10, next bool) (*Decoded, error) {
 	d := &Decoded{}
 	in := wire
 	if allowPatch10 && bytes.HasPrefix(in, []byte("HTTP/1.0 ")) {
@@ -246,6 +316,17 @@ func decodeInto(scratch *[]byte, wire []byte, allowPatch10 bool) (*Decoded, erro
 	}
 	_ = resp.Body.Close()
 	d.Leftover = br.Buffered() + rd.Len()
+	if next {
+		if d.Leftover == 0 {
+			d.NextErr = "nothing follows: the response to the second request is missing"
+		} else if d.NextErr = decodeNext(br); d.NextErr == "" {
+			if l := br.Buffered() + rd.Len(); l != 0 {
+				d.NextErr = fmt.Sprintf("%d bytes follow the second response", l)
+			} else {
+				d.Leftover = 0
+			}
+		}
+	}
 	return d, nil
 }
 
@@ -291,7 +372,11 @@ func snippet(b []byte, at, n int) string {
 func Judge(m *Model, r *Result, partial bool) []Verdict {
 	var vs []Verdict
 	add := func(clause, format string, a ...interface{}) {
-		vs = append(vs, Verdict{Clause: clause, Detail: fmt.Sprintf(format, a...)})
+		d := fmt.Sprintf(format, a...)
+		if len(d) > 500 {
+			d = d[:240] + " ... " + d[len(d)-240:]
+		}
+		vs = append(vs, Verdict{Clause: clause, Detail: d})
 	}
 	if r.Hang {
 		add("hang", "the request did not complete within the watchdog time")
@@ -315,23 +400,35 @@ func Judge(m *Model, r *Result, partial bool) []Verdict {
 	for i, op := range r.Prog.Ops {
 		or := r.Ops[i]
 		switch op.K {
-		case OpW, OpWS, OpRFB, OpRFF, OpRFL:
+		case OpW, OpWS, OpRFB, OpRFF, OpRFL, OpRFX:
 			kind := "write"
 			if op.K != OpW && op.K != OpWS {
 				kind = "readfrom"
 			}
 			if or.Err != "" {
 				add(kind+"-unexpected-error", "op %d %s at body offset %d returned error %q", i, op, off, or.Err)
-			} else if or.N != int64(op.N) {
-				add(kind+"-returned-wrong-count", "op %d %s at body offset %d returned n=%d, want %d", i, op, off, or.N, op.N)
+			} else if or.N != int64(op.Count()) {
+				add(kind+"-returned-wrong-count", "op %d %s at body offset %d returned n=%d, want %d", i, op, off, or.N, op.Count())
 			}
-			off += op.N
+			off += op.Count()
 		}
 	}
 	// the wire
 	trailerWanted := m.Hdr0["Trailer"] != ""
 	chunkAsked := trailerWanted || m.HdrZ["Trailer"] != "" || m.Hdr0["Transfer-Encoding"] != "" || m.HdrZ["Transfer-Encoding"] != ""
-	d, err := decodeInto(judgeScratch, r.Wire, chunkAsked)
+	// A pipelined follow-up response is owed when the handler of the second request ran or should
+	// have run: the connection is kept alive after this response. A handler that stopped short of
+	// its declared Content-Length leaves a response nobody can delimit: only the bytes up to where
+	// the second handler started are looked at then.
+	wire := r.Wire
+	next := r.Prog.Next && !m.ReqClose
+	if next && partial {
+		next = false
+		if r.NextRan > 0 && r.NextWire <= len(wire) {
+			wire = wire[:r.NextWire]
+		}
+	}
+	d, err := decodeInto(judgeScratch, wire, chunkAsked, next)
 	if err != nil {
 		add("wire-unparseable", "http.ReadResponse: %v; wire starts %s", err, snippet(r.Wire, 0, 80))
 		return vs
@@ -392,7 +489,7 @@ func Judge(m *Model, r *Result, partial bool) []Verdict {
 	if d.BodyErr != nil && !early {
 		add("body-undecodable", "reading the body: %v (decoded %d of %d bytes)", d.BodyErr, len(d.Body), m.Body)
 	}
-	want := Pat[:m.Body]
+	want := m.Want()
 	if i := firstDiff(d.Body, want); i < 0 && early && !partial {
 		add("body-mismatch", "truncated: the head promises more body than the %d bytes the handler wrote and that arrived", len(want))
 	} else if i >= 0 && (d.BodyErr == nil || early) {
@@ -406,7 +503,13 @@ func Judge(m *Model, r *Result, partial bool) []Verdict {
 		}
 	}
 	if d.Leftover != 0 {
-		add("wire-leftover", "%d bytes follow the end of the response; they start %s", d.Leftover, snippet(r.Wire, len(r.Wire)-d.Leftover+30, 60))
+		if next {
+			add("wire-leftover", "%d bytes follow the end of the response and %s; they start %s", d.Leftover, d.NextErr, snippet(wire, len(wire)-d.Leftover+30, 60))
+		} else {
+			add("wire-leftover", "%d bytes follow the end of the response; they start %s", d.Leftover, snippet(wire, len(wire)-d.Leftover+30, 60))
+		}
+	} else if next && d.NextErr != "" {
+		add("next-response-missing", "%s", d.NextErr)
 	}
 	// trailers
 	if trailerWanted && d.BodyErr == nil && bodyAllowed && !partial {
